@@ -105,6 +105,38 @@ func TestRacePass(t *testing.T) {
 		requests += 8 * 6
 		s.Settle()
 	}
+	// listings and expansions that need several pages at the DEFAULT page size (more than 100 rows), concurrently:
+	// pagination state (cursor, options) belongs to one call
+	for round := 0; round < rounds/2+1; round++ {
+		s := apih.NewServer(t, apih.Options{Namespaces: nss(), Config: map[string]any{"limit.max_read_depth": 10}})
+		c := s.Client()
+		var ds []*ketoapi.PatchDelta
+		for i := 0; i < 250; i++ {
+			ds = append(ds, &ketoapi.PatchDelta{Action: ketoapi.ActionInsert, RelationTuple: tup("wide", "a", fmt.Sprintf("m%03d", i))})
+		}
+		c.Patch(ds)
+		var wg sync.WaitGroup
+		for g := 0; g < 6; g++ {
+			g := g
+			wg.Add(1)
+			go func() {
+				defer wg.Done()
+				for i := 0; i < 3; i++ {
+					switch (g + i) % 3 {
+					case 0:
+						c.ListAll(&ketoapi.RelationQuery{Namespace: sp("n"), Object: sp("wide")}, "", 10)
+					case 1:
+						c.Expand(&ketoapi.SubjectSet{Namespace: "n", Object: "wide", Relation: "a"}, "2")
+					case 2:
+						c.GListAll(apih.ProtoQuery(&ketoapi.RelationQuery{Namespace: sp("n")}), 0, 10)
+					}
+				}
+			}()
+		}
+		wg.Wait()
+		requests += 18
+		s.Settle()
+	}
 	// tenants with their OWN configuration source (Contextualizer.Config): requests of two tenants in flight at
 	// once, each under its limits
 	ta, tb := uuid.Must(uuid.FromString("aaaaaaaa-aaaa-4aaa-8aaa-aaaaaaaaaaaa")), uuid.Must(uuid.FromString("bbbbbbbb-bbbb-4bbb-8bbb-bbbbbbbbbbbb"))
